@@ -652,6 +652,22 @@ fn run_ops<A: AbcX>(be: &str, seed: u64, ops: &[&str]) -> String {
                     }
                 }
             }
+            "newseq" => {
+                // `StripedSequence::new(DenseMatrix::new(rows), L)`: a caller-built sequence matrix whose Vec holds
+                // exactly `rows` rows (no DEFAULT_EXTRA_ROWS): configure_wrap then regrows it (amortised, or to the
+                // exact size when wrap > rows); Err(InvalidData) when rows * C < L (the previous sequence stays)
+                let (rows, l) = (pu(p[1]), pu(p[2]));
+                let params = format!("rows={},L={},C=32", rows, l);
+                let r = no_panic(|| StripedSequence::<A, U32>::new(DenseMatrix::new(rows), l).ok());
+                match r {
+                    None => format!("newseq|{}|P", params),
+                    Some(None) => format!("newseq|{}|E", params),
+                    Some(Some(s)) => {
+                        st.striped = s;
+                        format!("newseq|{}|{},{},{}", params, st.striped.matrix().rows(), st.striped.matrix().capacity(), st.striped.wrap())
+                    }
+                }
+            }
             "exact" => {
                 // exact-size copies of every buffer (Vec::clone allocates len elements)
                 st.striped = st.striped.clone();
@@ -661,10 +677,17 @@ fn run_ops<A: AbcX>(be: &str, seed: u64, ops: &[&str]) -> String {
                 st.dm = st.dm.clone();
                 st.enc = exact(std::mem::take(&mut st.enc));
                 format!(
-                    "exact|scap={},fcap={},ucap={}|ok",
+                    "exact|SR={},FR={},UR={},PR={},DR={}|{},{},{},{},{}",
+                    st.striped.matrix().rows(),
+                    st.fs.matrix().rows(),
+                    st.us.matrix().rows(),
+                    st.pssm.matrix().rows(),
+                    st.dm.matrix().rows(),
                     st.striped.matrix().capacity(),
                     st.fs.matrix().capacity(),
-                    st.us.matrix().capacity()
+                    st.us.matrix().capacity(),
+                    st.pssm.matrix().capacity(),
+                    st.dm.matrix().capacity()
                 )
             }
             // --------------------------------------------------- configuration
@@ -705,7 +728,7 @@ fn run_ops<A: AbcX>(be: &str, seed: u64, ops: &[&str]) -> String {
                 });
                 match r {
                     None => format!("cfg|{}|P", params),
-                    Some(()) => format!("cfg|{}|{},{}", params, st.striped.matrix().rows(), st.striped.wrap()),
+                    Some(()) => format!("cfg|{}|{},{},{}", params, st.striped.matrix().rows(), st.striped.wrap(), st.striped.matrix().capacity()),
                 }
             }
             // -------------------------------------------------------- scoring
@@ -1289,7 +1312,13 @@ fn gen_api(rng: &mut Rng, tier: &str) -> String {
             let l2 = pick_len(rng, tier);
             cur_l = l2;
             configured = false;
-            format!("sample:{}", l2)
+            if rng.chance(1, 3) {
+                // a caller-built sequence matrix with exactly the rows needed (now and then one more, or one too few: Err)
+                let rows = (l2.div_ceil(32) as i64 + *rng.pick(&[0i64, 0, 0, 0, 1, -1])).max(0) as usize;
+                format!("newseq:{}:{}", rows, l2)
+            } else {
+                format!("sample:{}", l2)
+            }
         } else if k < 93 {
             let big = rng.chance(1, 4);
             m = 1 + rng.below(if big { 80 } else { 24 }) as usize;
@@ -1303,6 +1332,50 @@ fn gen_api(rng: &mut Rng, tier: &str) -> String {
             format!("gibbs:{}:{}:{}:{}:{}", 2 + rng.below(5), 20 + rng.below(90), width, 1 + rng.below(12), wrap)
         };
         ops.push(op);
+    }
+    if rng.chance(1, 4) {
+        // tail on an EXACT allocation (round 3, seeded change C06/5): a sequence matrix without spare rows
+        // (a clone of a configured sequence; `StripedSequence::new(DenseMatrix::new(n))` or `sample()` configured
+        // afterwards) with exactly the M-1 look-ahead rows the motif needs, then the kernels that read the
+        // look-ahead rows: any load of row `rows()` leaves the allocation (guard page / ASan redzone)
+        match rng.below(4) {
+            0 => {}
+            1 => {
+                cur_l = pick_len(rng, tier);
+                ops.push(format!("sample:{}", cur_l));
+            }
+            2 => {
+                cur_l = pick_len(rng, tier);
+                ops.push(format!("newseq:{}:{}", cur_l.div_ceil(32), cur_l));
+            }
+            _ => {
+                cur_l = pick_len(rng, tier);
+                ops.push(format!("enc:{}:-1:{}", cur_l, rng.below(3)));
+                ops.push(format!("stripe:{}", rng.below(3)));
+            }
+        }
+        if rng.chance(1, 3) {
+            m = 1 + rng.below(40) as usize;
+            ops.push(format!("pssm:{}", m));
+        }
+        ops.push("cfg".to_string());
+        if rng.chance(3, 4) {
+            ops.push("exact".to_string());
+        }
+        let r = cur_l.div_ceil(32);
+        for _ in 0..1 + rng.below(3) {
+            let op = match rng.below(6) {
+                0 => "uscore".to_string(),
+                1 => "score".to_string(),
+                2 => format!("urows:{}:{}", rng.below(r as u64 + 1), r),
+                3 => format!("rows:{}:{}", rng.below(r as u64 + 1), r),
+                _ => {
+                    let block = *rng.pick(&[1usize, 7, 32, 33, 256, 1000]);
+                    format!("scan:{}:{}:{}:{}", block, rng.range(-80, 60), rng.below(3), rng.below(2))
+                }
+            };
+            ops.push(op);
+        }
     }
     format!("abc={} be={} seed={} ops={}", abc, be, seed, ops.join(";"))
 }
@@ -1661,6 +1734,24 @@ fn crashme(kind: &str) {
                 return;
             }
         }
+        "dead-load-oob" => {
+            // an aligned vector load one row past an exact allocation whose value is never used (what a
+            // software-pipelined kernel does on its last iteration): the optimiser may delete it, opt-level 0 keeps it
+            #[cfg(target_arch = "x86_64")]
+            unsafe {
+                use std::arch::x86_64::*;
+                let m = DenseMatrix::<u8, U32>::new(4).clone();
+                let st = m.stride();
+                let p = m[0].as_ptr();
+                let mut x = _mm256_load_si256(p as *const __m256i);
+                let mut s = _mm256_setzero_si256();
+                for i in 0..4 {
+                    s = _mm256_adds_epu8(s, x);
+                    x = _mm256_load_si256(p.add((i + 1) * st) as *const __m256i);
+                }
+                black_box(s);
+            }
+        }
         "misaligned" => {
             #[cfg(target_arch = "x86_64")]
             unsafe {
@@ -1722,13 +1813,17 @@ fn main() {
             let l3 = lines.clone();
             let t3 = rel_bin.map(|b| std::thread::spawn(move || run_child(&b, true, &l3)));
             // plain build once more with start-aligned guard pages (under-runs of the matrices)
-            let (l4, me4) = (lines.clone(), me.clone());
+            // the guard-page children run the plain build made with opt-level 0 (LM_FP_O0_BIN): the optimiser removes
+            // loads whose value is never used (a software-pipelined kernel that fetches one row too many: seeded
+            // change C06/5 is invisible at opt-level 1), the property speaks of the accesses the code makes as written
+            let plain = std::env::var("LM_FP_O0_BIN").ok().filter(|s| !s.is_empty()).unwrap_or_else(|| me.clone());
+            let (l4, me4) = (lines.clone(), plain.clone());
             let t4 = std::thread::spawn(move || run_child_env(&me4, false, &l4, Some("start")));
             // optional: MemorySanitizer build (initialisation tracking)
             let msan_bin = std::env::var("LM_FP_MSAN_BIN").ok().filter(|s| !s.is_empty());
             let l5 = lines.clone();
             let t5 = msan_bin.map(|b| std::thread::spawn(move || run_child(&b, true, &l5)));
-            let dbg = run_child(&me, false, &lines);
+            let dbg = run_child(&plain, false, &lines);
             let asan = t.join().unwrap();
             let rel = t3.map(|t| t.join().unwrap());
             let dbg2 = t4.join().unwrap();
@@ -1785,6 +1880,16 @@ fn main() {
                     if good { "" } else { " UNEXPECTED" }
                 );
                 ok &= good;
+            }
+            if let Some(o0) = std::env::var("LM_FP_O0_BIN").ok().filter(|s| !s.is_empty()) {
+                // the opt-level 0 build (guard-page children of `run`): same allocator, dead loads kept
+                for (kind, must_die) in [("clean", false), ("stream-oob", true), ("gather-oob", true), ("dead-load-oob", true)] {
+                    let o = Command::new(&o0).arg("crashme").arg(kind).output();
+                    let died = o.as_ref().map(|o| !o.status.success()).unwrap_or(!must_die);
+                    let good = o.is_ok() && died == must_die;
+                    println!("debug(opt-level 0) {}: {}{}", kind, if died { "died" } else { "survived" }, if good { "" } else { " UNEXPECTED" });
+                    ok &= good;
+                }
             }
             {
                 let o = Command::new(&me).arg("crashme").arg("stream-underflow").env("LM_FP_GUARD", "start").output();
